@@ -228,7 +228,7 @@ pub fn run(seed: u64, n: u64, thorough: bool, corpus: &[String], dir: &str) {
             out.count("cases_dc_near_wrap");
         }
         for v in viol {
-            let class = v.split(':').next().unwrap_or("?").to_string();
+            let class = format!("c08-{}", v.split(':').next().unwrap_or("?"));
             out.violation(&class, &v, &line);
         }
         out.case(&line, &trace);
@@ -325,9 +325,9 @@ pub fn run_wake(seed: u64, secs: u64, dir: &str) {
     let line = format!("c08w seed={} secs={}", seed, secs);
     if lost > 0 {
         out.violation(
-            "lost-wakeup",
+            "c08-lost-wakeup",
             &format!(
-                "lost-wakeup: consume(1) stayed pending with link_credit >= 1 after produce() returned ({} times in {} iterations, first at iteration {:?}); an extra notify_waiters() released it",
+                "c08-lost-wakeup: consume(1) stayed pending with link_credit >= 1 after produce() returned ({} times in {} iterations, first at iteration {:?}); an extra notify_waiters() released it",
                 lost, iters, first
             ),
             &line,
